@@ -365,8 +365,19 @@ fn child(case: &[Tok], out: &mut File) {
 
 fn exec(case: &[Tok]) -> Vec<Tok> {
     assert!(case.len() >= 5);
+    // reject absurd operands (token perturbation by the shrinker / neighbourhood search) BEFORE doing
+    // any work: a huge length would make the harness itself allocate gigabytes
+    assert!(case[2].u() <= (1 << 22) && case[3].u() < (1 << 40) && case.len() <= 5 + 64);
     for t in &case[5..] {
-        assert!(t.l().len() == 5);
+        let l = t.l();
+        assert!(l.len() == 5);
+        assert!(l[0] <= 10 && l[1] < (1 << 24) && l[2] < (1 << 20) && l[3] < (1 << 16) && l[4] < (1 << 16));
+        if (3..=8).contains(&l[0]) {
+            assert!((1..=16).contains(&l[2]));
+        }
+        if l[0] == 9 {
+            assert!([1, 2, 4, 8].contains(&l[2]));
+        }
     }
     let mut fds = [0i32; 2];
     assert!(unsafe { libc::pipe(fds.as_mut_ptr()) } == 0);
